@@ -368,6 +368,125 @@ theorem filter_flatMap_sublist (bs : List Block) (p : Block → Bool) :
     · exact (List.Sublist.refl _).append ih
     · exact ih.trans (List.sublist_append_right _ _)
 
+/-! ## copies (`copy_section(keep_id=False)`) -/
+
+mutual
+theorem Node.mapInfo_keys_add (g : Info → Info) (off : Nat) (hg : ∀ i, (g i).key = i.key + off) :
+    ∀ n : Node, (n.mapInfo g).keys = n.keys.map (· + off)
+  | .mk i cs => by
+    rw [Node.mapInfo, Node.keys_mk, Node.keys_mk, hg, mapInfoL_keys_add g off hg cs, List.map_cons]
+theorem mapInfoL_keys_add (g : Info → Info) (off : Nat) (hg : ∀ i, (g i).key = i.key + off) :
+    ∀ cs : List Node, keysL (mapInfoL g cs) = (keysL cs).map (· + off)
+  | [] => by simp [mapInfoL, keysL_nil]
+  | c :: cs => by
+    rw [mapInfoL, keysL_cons, keysL_cons, Node.mapInfo_keys_add g off hg c, mapInfoL_keys_add g off hg cs,
+      List.map_append]
+end
+
+/-- the ids of a copy are renewed ids of the original (all of them, or just the top for a shallow copy) -/
+theorem copyNode_keys_sub (off : Nat) (nm : String) (ch : Bool) (n : Node) :
+    (copyNode off nm ch n).keys.Sublist (n.keys.map (· + off)) := by
+  cases n with | mk i cs =>
+  simp only [copyNode, Node.info, Node.children, Node.keys_mk, List.map_cons]
+  refine List.Sublist.cons_cons _ ?_
+  cases ch
+  · simp [keysL_nil]
+  · simp only [if_true]
+    rw [mapInfoL_keys_add _ off (fun i => rfl)]
+    exact List.Sublist.refl _
+
+mutual
+theorem Node.mapInfo_cache_none (g : Info → Info) (hc : ∀ i, (g i).cparent = none) :
+    ∀ (p : Option Nat) (n : Node), cacheOK p (n.mapInfo g)
+  | p, .mk i cs => by
+    rw [Node.mapInfo, cacheOK]
+    exact ⟨.inl (hc i), mapInfoL_cache_none g hc _ cs⟩
+theorem mapInfoL_cache_none (g : Info → Info) (hc : ∀ i, (g i).cparent = none) :
+    ∀ (p : Option Nat) (cs : List Node), cacheOKL p (mapInfoL g cs)
+  | _, [] => by simp [mapInfoL, cacheOKL]
+  | p, c :: cs => by
+    rw [mapInfoL, cacheOKL]
+    exact ⟨Node.mapInfo_cache_none g hc p c, mapInfoL_cache_none g hc p cs⟩
+end
+
+/-- no handle into a copy carries a `_sec_parent`: fine below any parent -/
+theorem copyNode_cache (off : Nat) (nm : String) (ch : Bool) (n : Node) (p : Option Nat) :
+    cacheOK p (copyNode off nm ch n) := by
+  cases n with | mk i cs =>
+  simp only [copyNode, Node.info, Node.children]
+  rw [cacheOK]
+  refine ⟨.inl rfl, ?_⟩
+  cases ch
+  · simp [cacheOKL]
+  · simp only [if_true]
+    exact mapInfoL_cache_none _ (fun i => rfl) _ _
+
+mutual
+theorem Node.insertUnder_cache' (pk : Nat) (new : Node) (hnew : ∀ p, cacheOK p new) :
+    ∀ (p : Option Nat) (n : Node), cacheOK p n → cacheOK p (Node.insertUnder pk new n)
+  | p, .mk i cs, h => by
+    rw [cacheOK] at h
+    rw [Node.insertUnder]
+    have ih := insertUnderL_cache' pk new hnew (some i.key) cs h.2
+    by_cases hk : i.key = pk
+    · simp only [hk, if_true]
+      rw [cacheOK, cacheOKL_append]
+      refine ⟨h.1, hk ▸ ih, ?_⟩
+      simp only [cacheOKL, and_true]
+      exact hnew _
+    · simp only [hk, if_false]
+      rw [cacheOK]
+      exact ⟨h.1, ih⟩
+theorem insertUnderL_cache' (pk : Nat) (new : Node) (hnew : ∀ p, cacheOK p new) :
+    ∀ (p : Option Nat) (cs : List Node), cacheOKL p cs → cacheOKL p (insertUnderL pk new cs)
+  | _, [], _ => by simp [insertUnderL, cacheOKL]
+  | p, c :: cs, h => by
+    rw [cacheOKL] at h
+    rw [insertUnderL, cacheOKL]
+    exact ⟨Node.insertUnder_cache' pk new hnew p c h.1, insertUnderL_cache' pk new hnew p cs h.2⟩
+end
+
+mutual
+theorem Node.keys_sublist_of_mem {x : Node} : ∀ n : Node, x ∈ n.nodes → x.keys.Sublist n.keys
+  | .mk i cs, h => by
+    rw [Node.nodes, List.mem_cons] at h
+    rcases h with rfl | h
+    · exact List.Sublist.refl _
+    · rw [Node.keys_mk]
+      exact (keysL_sublist_of_mem cs h).trans (List.sublist_cons_self _ _)
+theorem keysL_sublist_of_mem {x : Node} : ∀ cs : List Node, x ∈ nodesL cs → x.keys.Sublist (keysL cs)
+  | [], h => by simp [nodesL] at h
+  | c :: cs, h => by
+    rw [nodesL, List.mem_append] at h
+    rw [keysL_cons]
+    rcases h with h | h
+    · exact (Node.keys_sublist_of_mem c h).trans (List.sublist_append_left _ _)
+    · exact (keysL_sublist_of_mem cs h).trans (List.sublist_append_right _ _)
+end
+
+/-- a block of renewed ids joins the file: still unique, still below the (doubled) id supply -/
+theorem wf_of_copy {f f' : File} (hf : WF f) {n : Node} (hn : n ∈ nodesL f.sections) {new : List Nat}
+    (hsub : new.Sublist (n.keys.map (· + f.next))) (hnext : f'.next = f.next + f.next)
+    (hp : (allKeys f').Perm (new ++ allKeys f)) (hc : cacheOKL none f'.sections) : WF f' := by
+  have hnk : n.keys.Sublist (allKeys f) :=
+    (keysL_sublist_of_mem f.sections hn).trans (List.sublist_append_left _ _)
+  have hmapnd : (n.keys.map (· + f.next)).Nodup :=
+    List.Pairwise.map _ (fun a b (h : a ≠ b) (e : a + f.next = b + f.next) => h (by omega)) (hnk.nodup hf.nodup)
+  have hrange : ∀ k ∈ new, f.next ≤ k ∧ k < f.next + f.next := by
+    intro k hk
+    obtain ⟨k0, hk0, rfl⟩ := List.mem_map.mp (hsub.subset hk)
+    have := hf.bound k0 (hnk.subset hk0)
+    omega
+  refine ⟨hp.nodup_iff.mpr (List.nodup_append.mpr ⟨hsub.nodup hmapnd, hf.nodup, ?_⟩), ?_, hc⟩
+  · intro a ha b hb e
+    have h1 := (hrange a ha).1
+    have h2 := hf.bound b hb
+    omega
+  · intro k hk
+    rcases List.mem_append.mp (hp.mem_iff.mp hk) with h | h
+    · have := (hrange k h).2; omega
+    · have := hf.bound k h; omega
+
 theorem wf_step {f f' : File} {op : Op} {r : Option Nat} (hf : WF f) (h : step f op = .ok (f', r)) : WF f' := by
   have hsec := wf_sections hf
   cases op with
@@ -526,6 +645,40 @@ theorem wf_step {f f' : File} {op : Op} {r : Option Nat} (hf : WF f) (h : step f
     rw [mapInfoL_keys]
     · exact List.Sublist.refl _
     · intro i; rfl
+  | copySection s dest name children =>
+    simp only [step] at h
+    split at h
+    · cases h
+    · rename_i n hn
+      have hnm : n ∈ nodesL f.sections := ((findL?_spec s f.sections).1 n hn).1
+      generalize (if name.isEmpty = true then n.name else name) = nm at h
+      cases dest with
+      | none =>
+        simp only at h
+        split at h
+        · cases h
+        · cases h
+          refine wf_of_copy hf hnm (copyNode_keys_sub f.next nm children n) rfl ?_ ?_
+          · simp only [allKeys, keysL_append, keysL_cons, keysL_nil, List.append_nil]
+            rw [← List.append_assoc]
+            exact List.Perm.append_right _ List.perm_append_comm
+          · exact (cacheOKL_append _ _).mpr ⟨hf.cache, by simp only [cacheOKL, and_true]; exact copyNode_cache _ _ _ _ _⟩
+      | some d =>
+        simp only at h
+        split at h
+        · cases h
+        · rename_i p hp
+          split at h
+          · cases h
+          · cases h
+            have hmem : d ∈ keysL f.sections := by
+              obtain ⟨hm, hk⟩ := (findL?_spec d f.sections).1 p hp
+              exact List.mem_map.mpr ⟨p, hm, hk⟩
+            refine wf_of_copy hf hnm (copyNode_keys_sub f.next nm children n) rfl ?_
+              (insertUnderL_cache' _ _ (copyNode_cache _ _ _ _) _ _ hf.cache)
+            simp only [allKeys]
+            rw [← List.append_assoc]
+            exact List.Perm.append_right _ (insertUnderL_keys d _ f.sections hsec hmem)
 
 theorem wf_empty : WF ({} : File) := ⟨by simp [allKeys, keysL_nil], by simp [allKeys, keysL_nil], by simp [cacheOKL]⟩
 
